@@ -77,7 +77,9 @@ func Harness_C16_ingest_worker_error() {
 		panic(err)
 	}
 	db := zzrepo.NewLockedStore()
-	db.S.F = &zzrepo.Fault{At: zzverif.Int("faultAt", 1, probe.Writes), Kind: 1}
+	// kind 0: the store fails persistently from that write on (e.g. disk full), so every
+	// worker runs into an error; kind 1: a single failing write
+	db.S.F = &zzrepo.Fault{At: zzverif.Int("faultAt", 1, probe.Writes), Kind: zzverif.Choose("faultKind", 2)}
 	_, err := zz16Ingest(db, rows, workers)
 	zzverif.Assert("worker-error-is-reported-to-the-caller", err != nil)
 	zzverif.Reach("end")
